@@ -588,10 +588,10 @@ open CBV.C08 (chain opsAt operandsAt cmpOp) in
     when it `is None` (defaults `None`): the model's `getParamsF` accepts exactly when the regenerated chained comparison (operators
     as they stand in the source now) holds for both parameters -/
 theorem T_C16_tie_params (lo hi : Rat) (pf pt : Option Rat) :
-    operandsAt CBV.Gen.c16CheckParamCompares 0 = ("self.bounds[0]", ["param", "self.bounds[1]"]) ∧
+    operandsAt CBV.Gen.c16CheckParamCompares 0 = ("self.bounds[0]", ["v0", "self.bounds[1]"]) ∧
     CBV.Gen.c16CheckParamNegated = [true] ∧
-    CBV.Gen.c16GetParamsCompares = [("param_from", ["Is"], ["None"]), ("param_to", ["Is"], ["None"])] ∧
-    CBV.Gen.c16GetParamsDefaults = [("param_from", "None"), ("param_to", "None")] ∧
+    CBV.Gen.c16GetParamsCompares = [("v0", ["Is"], ["None"]), ("v1", ["Is"], ["None"])] ∧
+    CBV.Gen.c16GetParamsDefaults = [("v0", "None"), ("v1", "None")] ∧
     (do let x ← chain (opsAt CBV.Gen.c16CheckParamCompares 0) [lo, pf.getD lo, hi]
         let y ← chain (opsAt CBV.Gen.c16CheckParamCompares 0) [lo, pt.getD hi, hi]
         pure (x && y)) = some (getParamsF lo hi pf pt).isSome := by
@@ -607,14 +607,14 @@ open CBV.C08 (chain opsAt operandsAt cmpOp) in
     defaults to 15 samples and passes `num=count` to `np.linspace`; the break points of `InterpolatedCurveBase.get_length` are the knots with
     `lower < t < upper` (the model's `lengthParams` filter, for every knot and every pair of parameters) -/
 theorem T_C16_tie_samples (d : α → α → Rat) (f : Rat → α) (lo hi : Rat) (pf pt : Option Rat) (ts : List Rat) (a b : Rat) :
-    CBV.Gen.c16AnalyticLengthCall = [["param_from", "param_to", "count=100"]] ∧
+    CBV.Gen.c16AnalyticLengthCall = [["v0", "v1", "count=100"]] ∧
     getLengthA d f lo hi pf pt = (discretizeFB f lo hi pf pt 100).map (polyLenD d) ∧
-    CBV.Gen.c16LinspaceCall = [["param_from", "param_to", "num=count"]] ∧
+    CBV.Gen.c16LinspaceCall = [["v0", "v1", "num=v2"]] ∧
     CBV.Gen.c16DiscretizeDefaults =
-      [("CurveBase", [("param_from", "None"), ("param_to", "None"), ("count", "10")]),
-       ("FunctionCurveBase", [("param_from", "None"), ("param_to", "None"), ("count", "15")]),
-       ("DiscreteCurve", [("param_from", "None"), ("param_to", "None"), ("_count", "0")])] ∧
-    operandsAt CBV.Gen.c16InterpLengthCompares 0 = ("lower", ["t", "upper"]) ∧
+      [("CurveBase", [("v0", "None"), ("v1", "None"), ("v2", "10")]),
+       ("FunctionCurveBase", [("v0", "None"), ("v1", "None"), ("v2", "15")]),
+       ("DiscreteCurve", [("v0", "None"), ("v1", "None"), ("v2", "0")])] ∧
+    operandsAt CBV.Gen.c16InterpLengthCompares 0 = ("v2", ["v5", "v3"]) ∧
     lengthParams ts a b = min a b ::
       (ts.filter (fun t => chain (opsAt CBV.Gen.c16InterpLengthCompares 0) [min a b, t, max a b] == some true)) ++ [max a b] := by
   refine ⟨by decide, rfl, by decide, by decide, by decide, ?_⟩
@@ -628,12 +628,12 @@ open CBV.C08 (chain opsAt operandsAt cmpOp) in
     (`len(points) < 2 → 0.0`); `LinearInterpolatedCurve.get_closest_param`: `np.where(lengths > 0, lengths, 1)`, `np.clip(ratios, 0, 1)`;
     `OnCurveEdge.point_array`: the slice `[1:-1]` -/
 theorem T_C16_tie_discrete (x : Rat) :
-    CBV.Gen.c16DiscreteCompares = [("param_from", ["Gt"], ["param_to"])] ∧
+    CBV.Gen.c16DiscreteCompares = [("v0", ["Gt"], ["v1"])] ∧
     CBV.Gen.c16DiscreteNumbers = [(0, 1), (1, 1), (0, 1)] ∧
-    CBV.Gen.c16DiscreteLengthCompares = [("len(points)", ["Lt"], ["2"])] ∧
+    CBV.Gen.c16DiscreteLengthCompares = [("len(v2)", ["Lt"], ["2"])] ∧
     CBV.Gen.c16DiscreteLengthNumbers = [(2, 1), (0, 1)] ∧
-    CBV.Gen.c16ClosestLinearCompares = [("lengths", ["Gt"], ["0"])] ∧
-    CBV.Gen.c16ClosestLinearClip = [["ratios", "0", "1"]] ∧
+    CBV.Gen.c16ClosestLinearCompares = [("v4", ["Gt"], ["0"])] ∧
+    CBV.Gen.c16ClosestLinearClip = [["v5", "0", "1"]] ∧
     CBV.Gen.c16PointArrayNumbers = [(1, 1), (-1, 1)] ∧
     clip01 x = (if chain ["Lt"] [x, 0] = some true then 0 else if chain ["Gt"] [x, 1] = some true then 1 else x) := by
   refine ⟨by decide, by decide, by decide, by decide, by decide, by decide, by decide, ?_⟩
